@@ -76,7 +76,7 @@ def enclosing_theorem(path, lineno):
     return name
 
 
-def build_and_audit(pid):
+def build_and_audit(pid, tier="quick"):
     """returns dict(translate_ok, build_ok, broken=[…], theorems={name: axioms}, log=…)"""
     obl = load_obligations().get(pid, {"modules": [], "theorems": []})
     res = dict(translate_ok=False, build_ok=False, broken=[], theorems={}, missing=[], bad_axioms=[],
@@ -143,6 +143,13 @@ def build_and_audit(pid):
             if rc != 0 and not res["missing"]:
                 res["missing"] = ["audit-run-failed"]
         res["forbidden"] = forbidden_tokens()
+        # thorough tier: independent re-check of the compiled property modules
+        res["leanchecker"] = None
+        if tier == "thorough" and res["build_ok"] and mods:
+            rc, out = sh(["lake", "env", "leanchecker"] + mods, cwd=LEAN, timeout=3000)
+            res["leanchecker"] = "ok" if rc == 0 else "FAILED: " + out[-500:]
+            if rc != 0:
+                res["missing"].append("leanchecker rejected " + " ".join(mods))
     return res
 
 
@@ -178,7 +185,7 @@ def main():
         log(f"unknown property {pid}")
         return 2
     try:
-        b = build_and_audit(pid)
+        b = build_and_audit(pid, tier)
     except subprocess.TimeoutExpired:
         log("build timed out")
         return 2
@@ -255,6 +262,7 @@ def main():
                       "CPython bytes/int/float/struct semantics; pynmeagps/pyrtcm parsers as uninterpreted verdicts"],
         theorems={k: v for k, v in b["theorems"].items()},
         correspondence_diffs=len(result.diffs),
+        leanchecker=b.get("leanchecker"),
         shape_changed=b["shape_changed"],
     ))
     ev = dict(property_id=pid, tier=tier, seed=seed, level="proof", coverage=cov,
